@@ -287,6 +287,11 @@ theorem kd_step (s s' : St) (e : Ev) (h : KD s) (hs : step s e = some s') : KD s
     split at hs
     · simp at hs; subst hs; exact h.d
     · simp at hs
+  | boff k b =>
+    simp only [step] at hs
+    split at hs
+    · simp at hs; subst hs; exact h.d
+    · simp at hs
   | probe j c =>
     simp only [step] at hs
     split at hs
